@@ -28,7 +28,7 @@ LEVEL = 'exploration'
 TIERS = {
     'quick': {'runs': 8000, 'block': 160, 'run_timeout': 120,
               'wall_cap': 900, 'det_sample': 4},
-    'thorough': {'runs': 128000, 'block': 800, 'run_timeout': 120,
+    'thorough': {'runs': 64000, 'block': 800, 'run_timeout': 120,
                  'wall_cap': 7200, 'det_sample': 8},
 }
 RULE = ('history = initial hive write (0-2 partition columns of six value '
